@@ -57,6 +57,9 @@ claim("C15", "closed-form constant checks + write-set and polynomial/clamp norma
 claim("C11", "normal form of the voicing predicate + index agreement and parameter->field roles at the three pipeline call sites + access-path taint for 6 sources (per-stream threshold and GV weight) + const-item identity of the no-data marker between writer and reader, over rustc MIR",
       "Sound static decision that a frame's voicing flag is `msd > threshold` (strict, hence antitone in the threshold), that each stream's MlpgAdjust receives the threshold/GV weight/model of its own index and lands in the SpeechGenerator parameter of that stream, that msd_threshold[k] and gv_weight[k] influence only stream k's trajectory, that unvoiced frames carry the NODATA const item which the vocoder maps to period 0 and period 0 selects noise, and that non-MSD streams get a sentinel above every threshold.")
 
+claim("C10", "iterator typestate on the two cursors of the blending function + exact polynomial forms of every component store + callee/field identity of weight vectors and models, over rustc MIR",
+      "Sound static decision that the blend is exactly sum_i w_i x_i over all voices for mean, variance and voicing weight (first pair consumed once, the rest zipped in order, no skipping adaptor, every component accumulated with its own weight), and that duration / stream / GV Gaussians use the duration / parameter / GV weight vector with the matching model of each voice. Vertex weights and identical voices follow. This code is never executed by the passing test suite.")
+
 
 def main():
     props = [json.loads(l) for l in open(os.path.join(VERIF, "properties.jsonl"))]
